@@ -319,6 +319,16 @@ def _format_language(c: ClassInfo, fmt: FuncInfo) -> Optional[tuple[str, str]]:
         return out, f'strftime({f!r})'
     parts = _fstring_parts(e)
     ann = norm(fmt.node.args.args[1].annotation) if fmt.node.args.args[1].annotation else ''
+    if ann in ('datetime.date', 'date'):
+        # frozen table of the datetime module.  A datetime.datetime IS a datetime.date (subclass), so a formatter typed for dates receives
+        # it too: isoformat() / str() of it carry the time of day, the attribute-wise spellings and strftime do not
+        day = '[0-9]{4}-[0-9]{2}-[0-9]{2}'
+        clock = '[0-9]{2}:[0-9]{2}:[0-9]{2}(?:\\.[0-9]{6})?(?:[+-][0-9]{2}:[0-9]{2}(?::[0-9]{2}(?:\\.[0-9]{6})?)?)?'
+        n0 = norm(e)
+        if n0 == f'{v}.isoformat()':
+            return f'{day}(?:T{clock})?', f'{n0}: isoformat() of a date or of a datetime (which is a date)'
+        if n0 in (f'str({v})', f'format({v})') or parts == [('val', v)]:
+            return f'{day}(?: {clock})?', f'{n0}: str() of a date or of a datetime (which is a date)'
     if ann == 'decimal.Decimal':
         # frozen table of the decimal module: str() / repr-free '{}' use scientific notation when the exponent is positive or the
         # adjusted exponent is below -6; the 'f' presentation type never does.  Domain: finite, non-negative (the sign is an operator node).
@@ -381,6 +391,8 @@ def rule_fmt_lang(ctx: RuleContext, p: Program, g: rx.Grammar, rid: str) -> None
                   + ('str() of a Decimal switches to scientific notation for a positive exponent or an adjusted exponent below -6 '
                      '(Decimal("0.0000001") -> "1E-7", Decimal("100.00").normalize() -> "1E+2"), so such a number does not lex back'
                      if ann == 'decimal.Decimal' else
+                     'a datetime.datetime is a datetime.date and is formatted with its time of day, so such a value does not lex back as one DATE'
+                     if w and ('T' in w or ' ' in w or ':' in w) else
                      'e.g. years below 1000 are not zero-padded by %Y on this platform, so such a date does not lex back'), fmt.where,
                   note=f'/{lang[0]}/ included in {tname}')
     if n < 3:
